@@ -312,46 +312,58 @@ class Algebra(object):
                 if name == 'neg':
                     return self.r_neg(self.nf(t.args[0]))
         if op == 'sqrt':
-            a = self.nf(t.args[0])
-            v = self.opaque_fn('sqrt', self.r_key(a), a)
-            if v not in self.rel and a[1] == ONE:
-                self.rel[v] = a[0]
-            return (Poly.var(v), ONE)
-        if op in ('sin', 'cos'):
-            a = self.nf(t.args[0])
-            a, sign = self._canon_sign(a)
-            k = self.r_key(a)
-            vs = self.opaque_fn('sin', k, a)
-            vc = self.opaque_fn('cos', k, a)
-            if vs not in self.rel:
-                # sin^2 -> 1 - cos^2
-                self.rel[vs] = Poly.const(1) - Poly({((vc, 2),): Fraction(1)})
-            if op == 'sin':
-                p = Poly.var(vs)
-                return (p if sign > 0 else -p, ONE)
-            return (Poly.var(vc), ONE)
+            return self.sqrt_r(self.nf(t.args[0]))
+        if op == 'sin':
+            return self.sin_r(self.nf(t.args[0]))
+        if op == 'cos':
+            return self.cos_r(self.nf(t.args[0]))
         if op == 'tan':
-            a = self.nf(t.args[0])
-            a, sign = self._canon_sign(a)
-            k = self.r_key(a)
-            vs = self.opaque_fn('sin', k, a)
-            vc = self.opaque_fn('cos', k, a)
-            if vs not in self.rel:
-                self.rel[vs] = Poly.const(1) - Poly({((vc, 2),): Fraction(1)})
-            p = Poly.var(vs)
-            return (p if sign > 0 else -p, Poly.var(vc))
+            return self.tan_r(self.nf(t.args[0]))
         # opaque function of the normal forms of its term arguments
         keys = []
         for a in t.args:
             if isinstance(a, T):
-                if self._is_arith(a):
-                    keys.append(self.r_key(self.nf(a)))
-                else:
-                    keys.append(('t', self._opaque_key(a)))
+                keys.append(self.r_key(self.nf(a)))
             else:
                 keys.append(('r', a))
         v = self.opaque_fn(op, tuple(keys), t)
         return (Poly.var(v), ONE)
+
+    # opaque functions on rational values (shared by the term translation and the spec library) ------
+    def sqrt_r(self, a):
+        a = self.r_norm(a)
+        v = self.opaque_fn('sqrt', self.r_key(a), a)
+        if v not in self.rel and a[1] == ONE:
+            self.rel[v] = a[0]
+        return (Poly.var(v), ONE)
+
+    def _sincos_vars(self, a):
+        a, sign = self._canon_sign(self.r_norm(a))
+        k = self.r_key(a)
+        vs = self.opaque_fn('sin', k, a)
+        vc = self.opaque_fn('cos', k, a)
+        if vs not in self.rel:
+            self.rel[vs] = Poly.const(1) - Poly({((vc, 2),): Fraction(1)})   # sin^2 -> 1 - cos^2
+        return vs, vc, sign
+
+    def sin_r(self, a):
+        vs, vc, sign = self._sincos_vars(a)
+        p = Poly.var(vs)
+        return (p if sign > 0 else -p, ONE)
+
+    def cos_r(self, a):
+        vs, vc, sign = self._sincos_vars(a)
+        return (Poly.var(vc), ONE)
+
+    def tan_r(self, a):
+        vs, vc, sign = self._sincos_vars(a)
+        p = Poly.var(vs)
+        return (p if sign > 0 else -p, Poly.var(vc))
+
+    def fn_r(self, op, args):
+        """opaque function symbol applied to rational values"""
+        keys = tuple(self.r_key(self.r_norm(a)) for a in args)
+        return (Poly.var(self.opaque_fn(op, keys, None)), ONE)
 
     def _opaque_key(self, a):
         # structural key of a non-arithmetic subterm, via nf of its own arguments
